@@ -115,6 +115,7 @@ class Interp:
         self.cur_func = []
         self.volatile = {}          # (id(obj), field) -> reader: fields written by other threads (rely)
         self.loop_entry_stack = []
+        self.undo_log = []
         from . import models
         models.install(self)
 
@@ -143,6 +144,9 @@ class Interp:
             self.cur_func = []
             self.volatile = {}
             self.loop_entry_stack = []
+            for d_, k_, old_ in reversed(self.undo_log):
+                d_[k_] = old_
+            self.undo_log = []
             try:
                 out = thunk()
                 outcomes.append((n, out))
@@ -309,6 +313,9 @@ class Interp:
     def st_Global(self, st, env):
         pass
 
+    def st_Nonlocal(self, st, env):
+        env.vars.setdefault('__nonlocals__', set()).update(st.names)
+
     def st_Assign(self, st, env):
         v = self.eval(st.value, env)
         for t in st.targets:
@@ -338,6 +345,16 @@ class Interp:
 
     def assign(self, t, v, env):
         if isinstance(t, ast.Name):
+            if t.id in env.vars.get('__nonlocals__', ()):
+                e = env.parent
+                while e is not None and t.id not in e.vars:
+                    e = e.parent
+                if e is None:
+                    raise Unsupported('nonlocal %s not found' % t.id)
+                # closure cells outlive a path: remember the old value and restore it when the next path starts
+                self.undo_log.append((e.vars, t.id, e.vars[t.id]))
+                e.vars[t.id] = v
+                return
             env.vars[t.id] = v
         elif isinstance(t, ast.Attribute):
             self.setattr_(self.eval(t.value, env), t.attr, v)
